@@ -113,6 +113,46 @@ static void par_case(vh::Rng& g, int it)
     delete Acoo;
 }
 
+// the same operations once more with the per-rank blocks and maps of the real object in the case line: the driver runs the
+// block-level model (Model/ParSpmv.lean) on exactly these blocks, compares rank by rank, and evaluates the hypotheses of the
+// lifting theorems (Props/C02Par.lean) on them
+static void par_blocks_case(vh::Rng& g, int it)
+{
+    int cap = 2 + std::min(14, it / 6);
+    int n_rows = g.range(0, cap), n_cols = g.coin(1, 2) ? n_rows : g.range(0, cap);
+    vh::Trip t = vh::gen_trip(g, n_rows, n_cols, g.coin(1, 12) ? 0 : g.range(0, 3 * cap), g.coin(), false);
+    int kind = g.below(3);
+    vh::Layout L = vh::make_layout(g, n_rows, n_cols, E.np, kind);
+    int fmt = g.below(3);
+    char buf[96]; snprintf(buf, 96, "par/blocks/assemble/layout%d/%s", kind, FN[fmt]); E.about(buf);
+    ParCOOMatrix* Acoo = vh::assemble_coo(t, L, E.rank);
+    ParMatrix* A = fmt == 0 ? (ParMatrix*)Acoo : fmt == 1 ? (ParMatrix*)Acoo->to_ParCSR() : (ParMatrix*)Acoo->to_ParCSC();
+    int fr = A->partition->first_local_row, fc = A->partition->first_local_col;
+    int lr = A->partition->local_num_rows, lc = A->partition->local_num_cols;
+    const char* ops[] = { "mult", "mult_append", "mult_T", "residual" };
+    int tap = (E.np > 1 && g.coin()) ? 1 : 0;
+    for (int k = 0; k < 4; k++) {
+        bool T = (k == 2);
+        std::vector<double> x = vh::rand_vec(g, T ? n_rows : n_cols), b = vh::rand_vec(g, T ? n_cols : n_rows);
+        ParVector px(T ? n_rows : n_cols, T ? lr : lc), pb(T ? n_cols : n_rows, T ? lc : lr), pr(n_rows, lr);
+        vh::fill_vec(px, x, T ? fr : fc); vh::fill_vec(pb, b, T ? fc : fr);
+        for (int i = 0; i < pr.local_n; i++) pr.local.values[i] = 77;
+        snprintf(buf, 96, "par/blocks/%s/layout%d/%s%s", ops[k], kind, FN[fmt], tap ? "/tap" : ""); E.about(buf);
+        if (k == 0) A->mult(px, pb, tap); else if (k == 1) A->mult_append(px, pb, tap);
+        else if (k == 2) A->mult_T(px, pb, tap); else A->residual(px, pb, pr, tap);
+        bool want = E.want();
+        ParVector& res = (k == 3 ? pr : pb);
+        std::vector<long long> mine(res.local_n); for (int i = 0; i < res.local_n; i++) mine[i] = (long long)llround(res.local.values[i]);
+        auto outs = vh::gather_ll(mine); auto blks = vh::gather_ll(vh::local_blocks(A));
+        vh::Case c("C02", "blk");
+        if (E.rank == 0) { c.i(k).i(fmt).i(tap).i(n_rows).i(n_cols).vec(vh::trip_ll(t)).divec(x).divec(b).i(E.np);
+            for (auto& v : blks) c.vec(v); for (auto& v : outs) c.vec(v); }
+        if (E.rank == 0 && want) c.write(E.out);
+    }
+    if (A != Acoo) delete A;
+    delete Acoo;
+}
+
 int main(int argc, char** argv)
 {
     MPI_Init(&argc, &argv);
@@ -122,6 +162,7 @@ int main(int argc, char** argv)
     int n = seq ? (E.thorough ? 600 : 120) : (E.thorough ? 240 : 60);
     for (int it = 0; it < n; it++) { if (seq) seq_case(g, it); else par_case(g, it); }
     if (seq) { vh::Rng gb(E.seed * 104729 + 5); for (int it = 0; it < n; it++) seq_block_case(gb, it); }    // after the scalar cases: their case numbers stay
+    else { vh::Rng gp(E.seed * 104729 + 9); for (int it = 0; it < n; it++) par_blocks_case(gp, it); }
     E.finish();
     MPI_Finalize();
     return 0;
